@@ -2161,6 +2161,12 @@ func (m *Machine) processQueue() Result {
 	}
 	m.queueMx.Unlock()
 
+	// a mutation queued after the loop ended, but before the lock got released,
+	// had no one to process it
+	if m.queueLen.Load() > 0 {
+		m.processQueue()
+	}
+
 	if len(ret) == 0 {
 		return Canceled
 	}
